@@ -81,6 +81,18 @@ func installSyncMapStubs(t *StubTable) {
 	t.Native[hm+"Len"] = func(i *interpreter, caller *frame, fn *ssa.Function, args []value) value {
 		return uintptr(len(*i.syncMapOf(args[0])))
 	}
+	t.Native[hm+"ForEach"] = func(i *interpreter, caller *frame, fn *ssa.Function, args []value) value {
+		m := i.syncMapOf(args[0])
+		snapshot := append([]smEntry{}, (*m)...)
+		for _, e := range snapshot {
+			if r := call(i, caller, 0, args[1], []value{e.k, e.v}); r != nil {
+				if b, ok := r.(bool); ok && !b {
+					break
+				}
+			}
+		}
+		return nil
+	}
 	t.Native[hm+"Get"] = func(i *interpreter, caller *frame, fn *ssa.Function, args []value) value {
 		m := i.syncMapOf(args[0])
 		if j := find(m, args[1]); j >= 0 {
